@@ -93,6 +93,52 @@ def make_pairs(tier, rng):
     return pairs
 
 
+def run_explored(ctx, tier, rng):
+    """Every behaviour TLC finds for each gated program (ALL decision sequences within the budget,
+    optionally one injected failure) is replayed on the real runners."""
+    from .. import steps
+    thorough = tier == "thorough"
+    jobs = []
+    stride = 2 if thorough else 12
+    for cyc in (False, True):
+        for prog, prov, tag in gen.enum_gated(cyclic=cyc, stride=stride, offset=rng.randrange(stride)):
+            for n in prog["nodes"]:
+                if n["kind"] in ("route", "ifelse"):
+                    n["script"] = [["END"]] if "END" in n["targets"] else ([[n["targets"][0]]] if n["kind"] == "ifelse" else [[IR.NONE]])
+                elif thorough and rng.random() < 0.3:
+                    n["mayfail"] = True
+            j = gen.job(len(jobs) + 1, prog, prov, mode=rng.choice(["sync", "async"]))
+            j["dbudget"] = 4 if thorough else 3
+            j["fbudget"] = 1 if thorough else 0
+            j["_tag"] = ("cyc/" if cyc else "dag/") + tag
+            jobs.append(j)
+    behs, stats = steps.explore([{k: v for k, v in j.items() if not k.startswith("_")} for j in jobs])
+    ctx.add_tlc(stats)
+    n = 0
+    for j in jobs:
+        for b in behs.get(j["id"], []):
+            n += 1
+            ctx.count()
+            ctx.traces()
+            sj = steps.scripted_job(j, b)
+            o, _, _ = predict.try_real(sj)
+            m = predict.norm_model(dict(b, done=[], raw_keys=[]))
+            wit = {"job": sj, "tag": j["_tag"], "explored": {"status": b["status"], "values": b["values"], "calls": [(c["path"], c["dec"]) for c in b["calls"]]},
+                   "observed": o if "rejected" in o else {x: o[x] for x in ("status", "values", "err")}}
+            if "rejected" in o:
+                continue
+            mm = enginecheck.common_mismatch(m, o)
+            if mm:
+                ctx.violation("explored:outcome", wit, mm)
+                continue
+            if predict.per_node(m["calls"]) != predict.per_node(o["calls"]):
+                ctx.violation("explored:invocations", wit, f"per-node invocations {predict.per_node(o['calls'])} differ from the explored behaviour {predict.per_node(m['calls'])}")
+                continue
+            if set(m["values"]) != set(o["values"]):
+                ctx.violation("explored:output-keys", wit, f"outputs {sorted(o['values'])}, explored behaviour {sorted(m['values'])}")
+    ctx.bump("tlc_explored_behaviours_replayed", n)
+
+
 def selftest(ctx, pairs):
     """Corrupt one recorded log (move a target start in front of its gate's decision) and
     require TLC's monitor to reject it; perturb a projection and require the comparator to flag it."""
@@ -128,10 +174,12 @@ def run(tier, seed):
     for j, _ in pairs:
         ctx.distinct(IR.struct_hash([j["prog"], j["provided"], j["mode"]]))
     res, reals = enginecheck.evaluate(ctx, pairs, PID, compare, trace_prop=PID, min_accepted=len(pairs) // 2)
+    run_explored(ctx, tier, rng)
     mid = pairs[len(pairs) // 3][0]
     ctx.sample({"job": mid, "observed_calls": [(c["path"], c["dec"]) for c in reals[mid["id"]].get("calls", [])]})
     ctx.assumptions += ["gate decisions are scripted by invocation index, so routing is decoupled from value wiring",
-                        "L1 monitor (HGProps!Justified/GateFirst/exact) is checked by TLC on the model's runs (INVARIANT L1Holds) and on every recorded real call log (TraceL1)"]
+                        "L1 monitor (HGProps!Justified/GateFirst/exact) is checked by TLC on the model's runs (INVARIANT L1Holds) and on every recorded real call log (TraceL1)",
+                        "HGSteps.tla: the engine as a transition system (Plan/Exec/Commit); TLC explores every decision sequence within the budget (and an injected failure in thorough), checks the monitors in every reachable state, and every terminal behaviour is replayed on the real runners"]
     return ctx.finish(
         rule="gated small-scope family: chain A->B->C (DAG and cyclic), one gate over every input choice {x,a,b}, target set, kind (route/multi/ifelse, END, None), default_open, list position, all decision scripts of length 2"
              + (" (all instances, both runners)" if tier == "thorough" else " (1/6 stride, random offset)")
